@@ -7,7 +7,8 @@ ALL = [f"C{i:02d}" for i in range(1, 21)]
 # id -> (technique, level text, level note)
 CLAIMED = {
  "C01": ("Lean 4 refinement theorem (mirror model = tensor-factor relabelling spec) + exact correspondence on labelled inputs",
-         "Kernel-checked theorems about the mirror model of permute_systems/swap/permutation_operator for every n, dimension vector and permutation; "
+         "Kernel-checked theorems (37) about the mirror model of permute_systems/swap/permutation_operator/swap_operator for every n, dimension vector and permutation: mirror = relabelling spec (vectors, rectangular matrices, row-only, inverse flag), product vectors and product operators are relabelled factor-wise, "
+         "composition law, inverse undoes forward (vectors and matrices), row-only = multiplication by the permutation operator, which is a 0/1 matrix with one 1 per row and column and P P^T = P^T P = 1, swap = transposition and an involution, swap operator = permutation operator of the transposition, exact integer root for the omitted-dim form; "
          "the model is tied to /repo on every run by exact (tolerance 0) comparison of the real functions with the compiled Lean model on arange-labelled inputs, "
          "where one case settles a whole configuration for every entry value.",
          "Trusted: Lean kernel; axioms propext/Classical.choice/Quot.sound; the hand-written model; the Python harness; NumPy dtype-parametricity of data movement. "
